@@ -476,7 +476,52 @@ def sumrange_suite(ctx):
             s.nt([a, b])
         s.count("reversed" if a > b else "forward")
     s.samples.append({"suite": "sumrange", "src": "y = sum(range(2, 5))", "closed": 9})
-    s.note = "sum(range(a, b)) for all literal a, b in the box: value emitted by simplify_math_iterators vs the model's closed form (the model mirrors the reversed-range defect); non-trivial = a < b"
+    s.note = "sum(range(a, b)) for all literal a, b in the box: value emitted by simplify_math_iterators vs the model's sumEmitted (0 for an empty range, the closed form otherwise); non-trivial = a < b"
+    return s
+
+
+def stepped_sum_oracle(ctx):
+    """sums over stepped ranges and over comprehensions of ranges with literal bounds: executed before and after; symbolic bounds must not crash"""
+    from pyrefact import symbolic_math as sm
+    import tablegen
+
+    s = Suite("stepped-sums", kind="oracle")
+    box = range(-3, 9) if ctx.thorough else range(-2, 7)
+    steps = (-3, -2, -1, 1, 2, 3)
+    bodies = ["i", "i * i", "i + 1", "2 * i - 1"]
+    srcs = []
+    for a in box:
+        for b in box:
+            for st in steps:
+                srcs.append(f"y = sum(range({a}, {b}, {st}))\n")
+                for body in (bodies if ctx.thorough else bodies[:2]):
+                    srcs.append(f"y = sum({body} for i in range({a}, {b}, {st}))\n")
+            srcs.append(f"y = sum(i + j for i in range({a}, {b}) for j in range({b}, {a}, -1))\n")
+    srcs += ["y = sum(i * 3 for i in range(a, b, 2))\n", "y = sum(i for i in range(a, b, c))\n", "y = sum(range(a, b, 2))\n", "y = sum(i * 2 for i in range(1, 9, 0))\n",
+             "y = sum(v for v in range(a % 4 + 1))\n", "y = sum(i // 2 for i in range(a))\n", "y = sum(abs(i) for i in range(-3, 4))\n"]
+    for src in srcs:
+        s.cases += 1
+        try:
+            out = tablegen.one_pass(sm.simplify_math_iterators, src)
+        except Exception as ex:  # noqa: BLE001
+            s.disagreements.append({"src": src, "what": f"simplify_math_iterators raised {ex!r}"})
+            continue
+        if out == src:
+            continue
+        s.nt(src)
+        res = []
+        for text in (src, out):
+            env = {"a": 1, "b": 9, "c": 3}
+            try:
+                exec(text, env)
+                res.append(env["y"])
+            except Exception as ex:  # noqa: BLE001
+                res.append("exc:" + type(ex).__name__)
+        if res[0] != res[1]:
+            s.disagreements.append({"src": src, "out": out, "before": res[0], "after": res[1], "what": f"simplify_math_iterators changes the value of {src.strip()!r}: {res[0]} -> {res[1]}"})
+    s.note = ("sum(range(a, b, s)) and sum(f(i) for i in range(a, b, s)) for all literal a, b in the box, s in -3..3 without 0, 4 bodies, two-clause comprehensions with a reversed second "
+              "range, and 7 symbolic shapes (bounds that are names, zero step, modulo, floor division): the rule must not raise and the value of y is the same before and after; "
+              "non-trivial = the rule rewrote the sum")
     return s
 
 
@@ -515,7 +560,7 @@ def symmath_oracle(ctx):
 def suites(ctx):
     common.import_pyrefact()
     return [bounds_suite(ctx), bounds_oracle_suite(ctx), negate_suite(ctx), negate_oracle(ctx), rangefold_suite(ctx),
-            rangefold_oracle(ctx), sumrange_suite(ctx), symmath_oracle(ctx)]
+            rangefold_oracle(ctx), sumrange_suite(ctx), stepped_sum_oracle(ctx), symmath_oracle(ctx)]
 
 
 def match_known(d, known):
